@@ -712,28 +712,6 @@ def _c19_multi_binding(rec):
     return any(several(kinds.get(n, ())) for n in touched)
 
 
-@classifier("global-declaration-not-renamed")
-def _c19_global(rec):
-    """A module variable that a function declares `global` (or a local that an inner function declares `nonlocal`) is renamed at module level, but the declaration and
-    the uses inside that function keep the old name (or are renamed by another convention)."""
-    b = _behaviour(rec, {"fixes.align_variable_names_with_convention", "fixes._fix_variable_names", "main.format_code", "fixes.undefine_unused_variables"})
-    if not b:
-        return False
-    declared = {n for g in ast.walk(b[3]) if isinstance(g, (ast.Global, ast.Nonlocal)) for n in g.names}
-    count = lambda text, n: len(re.findall(r"(?<![A-Za-z0-9_])" + re.escape(n) + r"(?![A-Za-z0-9_])", text or ""))  # noqa: E731
-    if any(count(b[1], n) != count(b[2], n) for n in declared):
-        return True
-    # ... or a declaration whose function no longer mentions the declared name at all (its uses were renamed)
-    for fn in ast.walk(b[4]):
-        if isinstance(fn, (ast.FunctionDef, ast.AsyncFunctionDef)):
-            for st in ast.walk(fn):
-                if isinstance(st, (ast.Global, ast.Nonlocal)):
-                    for n in st.names:
-                        if not any(isinstance(x, ast.Name) and x.id == n for x in ast.walk(fn)):
-                            return True
-    return False
-
-
 @classifier("duplicate-function-kept-under-a-builtin-name")
 def _c19_dup_builtin(rec):
     """remove_duplicate_functions deletes the later of two equal functions and redirects its uses to the first; when the first is named like a builtin or keyword
